@@ -121,12 +121,18 @@ def process_outputs(
     # Send the rest of our outputs, unless they are succeeded or failed,
     # which we hold back, to prevent warnings about pre-requisites being
     # unmet being shown because a "finished" output happens to come first.
+    outputs = itask.state.outputs
+    fail = TASK_OUTPUT_FAILED in conf_outputs or (
+        # By default generate all required outputs: this includes failed if
+        # the task cannot complete without it.
+        not conf_outputs
+        and TASK_OUTPUT_FAILED in {
+            outputs._message_to_trigger[message]
+            for message in outputs.iter_required_messages()
+        }
+    )
     for message in itask.state.outputs.iter_required_messages(
-        disable=(
-            TASK_OUTPUT_SUCCEEDED
-            if TASK_OUTPUT_FAILED in conf_outputs
-            else TASK_OUTPUT_FAILED
-        )
+        disable=TASK_OUTPUT_SUCCEEDED if fail else TASK_OUTPUT_FAILED
     ):
         trigger = itask.state.outputs._message_to_trigger[message]
         # Send message unless it be succeeded/failed.
@@ -143,7 +149,7 @@ def process_outputs(
         if trigger in conf_outputs
     )
 
-    if TASK_OUTPUT_FAILED in conf_outputs:
+    if fail:
         result.add(TASK_OUTPUT_FAILED)
     else:
         result.add(TASK_OUTPUT_SUCCEEDED)
